@@ -284,6 +284,19 @@ fn main() {
                     if pt["kind"] != "ok" {
                         line["pterr"] = pt.clone();
                     }
+                    if var == "B" {
+                        // the YAML rendering of the parse tree is the same tree as the JSON one
+                        let y = exec::cli_in_process_stdin(&["parse-tree", "--print-yaml"], &text);
+                        let j = exec::cli_in_process_stdin(&["parse-tree", "--print-json"], &text);
+                        let as_json = |t: &str| -> Option<J> {
+                            let body = t.strip_prefix("0:")?;
+                            serde_yaml::from_str::<J>(body).ok()
+                        };
+                        line["pt_formats_agree"] = json!(match (as_json(&y), as_json(&j)) {
+                            (Some(a), Some(c)) => a == c,
+                            _ => false,
+                        });
+                    }
                     writeln!(f, "{}", line).unwrap();
                 };
                 let canon = render::Style::default();
@@ -494,6 +507,14 @@ fn main() {
                     let a: Vec<&str> = c.iter().map(|x| x.as_str()).collect();
                     println!("{}", json!({"round": round, "cmd": k, "out": exec::cli_in_process(&a, "")}));
                 }
+            }
+        }
+        "pt-formats" => {
+            let text = std::fs::read_to_string(m.get("rules").expect("--rules")).unwrap();
+            for a in [vec!["parse-tree", "--print-yaml"], vec!["parse-tree"], vec!["parse-tree", "--print-json"]] {
+                let o = exec::cli_in_process_stdin(&a, &text);
+                let body = o.strip_prefix("0:").unwrap_or("");
+                println!("{:?}: head={:?} parsed={:?}", a, o.chars().take(60).collect::<String>(), serde_yaml::from_str::<J>(body).map(|_| "ok").map_err(|e| e.to_string()));
             }
         }
         "fuzz-case" => {
